@@ -322,25 +322,34 @@ def renderable(n):
     return all(renderable(c) for c in n.children)
 
 
-def _expected(n, top):
+def _expected(n, root_rule):
+    """root_rule: None = n is below the rendered object (its xmlns is compared with its parent's);
+    "top" = n is the rendered object and counts as the top of the output (xmlns="jabber:client" is left out);
+    "parent" = n is the rendered object and its xmlns is compared with its live parent's."""
     if n.kind == "T":
         return ("T", n.data)
     attrs = dict(n.attrs)
     ns = attrs.get(XMLNS)
     if ns is not None:
-        if top:
-            if n.parent is None:
-                if ns == NS_CLIENT:
-                    del attrs[XMLNS]
-            elif n.parent.kind == "E" and n.parent.attrs.get(XMLNS) == ns:
+        if root_rule == "top":
+            if ns == NS_CLIENT:
                 del attrs[XMLNS]
         elif n.parent.kind == "E" and n.parent.attrs.get(XMLNS) == ns:
             del attrs[XMLNS]
-    return ("E", n.data, frozenset(attrs.items()), tuple(_merge([_expected(c, False) for c in n.children])))
+    return ("E", n.data, frozenset(attrs.items()), tuple(_merge([_expected(c, None) for c in n.children])))
 
 
 def expected_nodes(n):
-    return _merge([_expected(n, True)])
+    """The acceptable readings of xmpp_stanza_to_text(n).  An object without a (live) parent is the top of the
+    output.  For an object that is attached to a live parent libstrophe 0.14.0 compares its xmlns with the
+    parent's, with fixes/C09-1 it treats it as the top: which of the two is right is C09's business, both are
+    accepted here.  After the parent is gone there is NO parent: only the top-level reading is accepted."""
+    alts = [_merge([_expected(n, "top")])]
+    if n.parent is not None:
+        a = _merge([_expected(n, "parent")])
+        if a not in alts:
+            alts.append(a)
+    return alts
 
 
 _ENT = {b"lt": b"<", b"gt": b">", b"amp": b"&", b"quot": b"\""}
@@ -527,10 +536,10 @@ def oracle(ops, impl):
                     got = parse_xml(unhx(out[2:]))
                 except (ValueError, KeyError) as e:
                     got = "unreadable (%s)" % e
-                if got != pred[1]:
+                if got not in pred[1]:
                     fails.append(("text", "%s rendered %r = %s, the tree is %s" %
                                   (where, unhx(out[2:])[:200], got if isinstance(got, str) else show_nodes(got)[:300],
-                                   show_nodes(pred[1])[:300])))
+                                   " or ".join(show_nodes(a)[:300] for a in pred[1]))))
         elif out == "BAD" or not out.startswith("R"):
             fails.append(("rc", "%s gave %s" % (where, out[:40])))
         if lv != it.live():
@@ -1043,13 +1052,15 @@ OOM_PROGRAMS = [
 
 
 def gen_oom(tier):
-    nmax = 90 if tier == "thorough" else 14
+    """allocfail n directly before the calls under test (and, thorough, before the whole program) for every n up
+    to beyond the number of allocation requests; quick: every n <= 12, then every third"""
+    ns = list(range(1, 91)) if tier == "thorough" else list(range(1, 13)) + list(range(13, 72, 3))
     out = []
     for name, pre, tgt, suf in OOM_PROGRAMS:
-        for n in range(1, nmax + 1):
+        for n in ns:
             out.append((enc_prog(pre + [("allocfail", n)] + tgt + suf), "oom-" + name))
         if tier == "thorough":
-            for n in range(1, nmax + 1):
+            for n in ns:
                 out.append((enc_prog([("allocfail", n)] + pre + tgt + suf), "oom-" + name + "-whole"))
     return out
 
@@ -1081,7 +1092,7 @@ def gen_cases(chk):
     fam_reply(rng, add, 6000 if thorough else 250)
     fam_deep_wide(rng, add, 50, 200)
     fam_deep_wide(rng, add, 7, 9)
-    fam_exhaustive(add, 4 if thorough else 3)
+    fam_exhaustive(add, 6 if thorough else 4)
     target = 100000 if thorough else 3000
     nrandom = max(target - len(cases), 500)
     for _ in range(nrandom):
@@ -1109,33 +1120,40 @@ def load_corpus():
     return out
 
 
+def _rec_result(rec):
+    """the implementation's result line of a failure record (ours carry it as "impl"; otherwise look in "what")"""
+    impl = str(rec.get("impl") or "")
+    if not impl:
+        what = str(rec.get("what") or "")
+        k = what.find("CRASH ")
+        impl = what[k:] if k >= 0 else what
+    return impl
+
+
 def register_known(chk):
     def oom_crash(rec):
-        return "allocfail" in str(rec.get("case", "")) and is_null_deref(str(rec.get("impl", "")))
+        return "allocfail" in str(rec.get("case", "")) and is_null_deref(_rec_result(rec))
 
     def oom_leak(rec):
-        impl = str(rec.get("impl", ""))
-        if "allocfail" not in str(rec.get("case", "")) or impl.startswith("CRASH") or "ALLOCERR" in impl:
+        impl = _rec_result(rec)
+        if "allocfail" not in str(rec.get("case", "")) or "CRASH" in impl or "ALLOCERR" in impl:
             return False
-        m = re.search(r"END live=(\d+) blocks=(\d+)$", impl)
+        m = re.search(r"END live=(\d+) blocks=(\d+)", impl) or re.search(r"live=(\d+) blocks=(\d+)", impl)
         return bool(m) and (int(m.group(1)) > 0 or int(m.group(2)) > 0)
     for kid, mine in ((KNOWN_OOM_CRASH, oom_crash), (KNOWN_OOM_LEAK, oom_leak)):
         old = chk.known_preds.get(kid)
         if old is None:
+            mine._c12stanza = True
             chk.known_preds[kid] = mine
         elif not getattr(old, "_c12stanza", False):
+            # another stream of C12 (connection scenarios) registered the same class: either predicate may claim
             def both(rec, old=old, mine=mine):
-                return old(rec) or mine(rec)
+                return bool(old(rec)) or mine(rec)
             both._c12stanza = True
             chk.known_preds[kid] = both
         if not any(k.get("id") == kid for k in chk.known):
+            # known_findings.json is the coordinator's file; until the entry is committed there the check carries it
             chk.known.append(dict(KNOWN_ENTRIES[kid]))
-    for kid in (KNOWN_OOM_CRASH, KNOWN_OOM_LEAK):
-        f = chk.known_preds[kid]
-        try:
-            f._c12stanza = True
-        except AttributeError:
-            pass
 
 
 def _crash_summary(rc, err):
@@ -1224,7 +1242,26 @@ def shrink_prog(exe, ops, sig, max_steps=150):
         return ops
 
 
-PER_SIG = 5
+PER_SIG = 5          # failures reported per signature
+MAX_REPORTS = 30     # ... and in total
+MAX_SHRINKS = 6
+
+RULE = ("stanza stream: programs of xmpp_stanza_* calls over <= 16 reference slots, generated under the guidance of a reference "
+        "interpreter so that every call is well-owned: random programs (5-40 calls, 3-8 slots); a child that outlives its "
+        "parent (held by clone / add_child clone / get_children+get_next+clone; first, middle, last sibling; with "
+        "grandchildren; xmlns equal / different / absent / jabber:client) and is then rendered, walked, re-parented (clone / "
+        "transfer), copied, mutated, released; transfer vs clone; every release order of every tree shape with <= 5 nodes "
+        "(6 sampled); copies of trees with shared handles; reply / reply_error with and without from / to / text, on text "
+        "and unnamed nodes, parts of the reply held beyond it; error returns of the setters; depth-50 chain, 200 children; "
+        "all well-owned programs of <= 4 (quick) / 6 (thorough) macro steps over 3 slots; OOM: allocfail n for every n "
+        "before reply_error / copy / to_text / reply / tree building. non-trivial = program in which an object is shared "
+        "(clone, add_child with clone, or child executed)")
+ASSUMPTIONS = [
+    "stanza stream: a stanza object is a live allocator block of sizeof(xmpp_stanza_t) bytes (strings are kept shorter than 60 bytes)",
+    "stanza stream: the user respects the one structural rule of xmpp_stanza_add_child (the child has no parent and is not an ancestor of the new parent); ill-owned programs are outside the quantifier",
+    "stanza stream: the oracle's reference interpreter (checks/c12stanza.py: Interp, 'live <=> referenced') and its reader of the rendered text are independent of the Coq model; for an object attached to a live parent both xmlns readings (parent-relative, top-level) are accepted",
+    "stanza stream: use-after-free / double free are observed through ASan and the driver's poisoning allocator, i.e. only on paths the programs execute",
+]
 
 
 def run_stanza_stream(chk):
@@ -1276,6 +1313,7 @@ def run_stanza_stream(chk):
     per_sig = {}
     reported = set()
     wo_reports = 0
+    shrinks = 0
     for i, (line, kind, ops) in enumerate(progs):
         chk.evaluations += 1
         chk.count(kind)
@@ -1312,9 +1350,12 @@ def run_stanza_stream(chk):
         stats["oracle_failures"] += 1
         sig = fails[0][0]
         per_sig[sig] = per_sig.get(sig, 0) + 1
-        if per_sig[sig] > PER_SIG:
+        if per_sig[sig] > PER_SIG or len(reported) >= MAX_REPORTS:
             continue
-        small = shrink_prog(exe, ops, sig) if per_sig[sig] <= 2 else ops
+        small = ops
+        if per_sig[sig] <= 2 and shrinks < MAX_SHRINKS:
+            shrinks += 1
+            small = shrink_prog(exe, ops, sig, max_steps=100)
         sline = enc_prog(small)
         sil = run_impl(exe, [sline], chunk_timeout=20)[0]
         sf = oracle(small, sil)
